@@ -273,6 +273,113 @@ def classify(case):
     return k
 
 
+# ---------------------------------------------------------------- powers
+def gen_pow_case(rng, tier):
+    kind = rng.choice(['scalar_base', 'poly_exponent', 'complex_exponent', 'np_exponent'])
+    D = rng.choice([1, 2, 3, 4, 5])
+    P = rng.choice([1, 2])
+    shp = rng.choice([(), (2,), (2, 2)])
+    x = numpy.zeros((D, P) + shp)
+    for idx in numpy.ndindex(*x.shape):
+        x[idx] = float(F(rng.randint(4, 24), 8)) if idx[0] == 0 else float(dy(rng))
+    case = dict(op='pow', kind=kind, D=D, P=P, x=enc(x))
+    if kind == 'scalar_base':
+        case['r'] = enc(rng.choice([0.5, 1.5, 2.0, 3.0, numpy.float64(2.5), 2, numpy.int64(3)]))
+    elif kind == 'poly_exponent':
+        y = numpy.zeros((D, P) + shp)
+        for idx in numpy.ndindex(*y.shape):
+            y[idx] = float(dy(rng, lo=-12, hi=12))
+        case['y'] = enc(y)
+    elif kind == 'complex_exponent':
+        case['r'] = enc(rng.choice([complex(1, 2), complex(0.5, -1.5), numpy.complex128(2 + 1j), complex(-1.25, 0.5)]))
+    else:
+        case['r'] = enc(rng.choice([numpy.float64(2.5), numpy.float64(-0.5), numpy.int64(3), numpy.int64(2), numpy.float32(1.5), numpy.int32(4)]))
+    return case
+
+
+def pow_ode_residual(xd, zd, r):
+    """model-free predicate for z = x**r (r scalar, maybe complex):  x * z' = r * z * x'  modulo t^(D-1), and z_0 = x_0**r.
+    Evaluated in complex floating point; returns the largest relative residual."""
+    D = xd.shape[0]
+    worst = float(numpy.max(numpy.abs(zd[0] - xd[0].astype(complex) ** r) / (1 + numpy.abs(zd[0]))))
+    for d in range(D - 1):
+        lhs = sum(xd[k] * (d - k + 1) * zd[d - k + 1] for k in range(d + 1))
+        rhs = r * sum(zd[k] * (d - k + 1) * xd[d - k + 1] for k in range(d + 1))
+        scale = 1 + numpy.abs(lhs) + numpy.abs(rhs)
+        worst = max(worst, float(numpy.max(numpy.abs(lhs - rhs) / scale)))
+    return worst
+
+
+def judge_pow(rep, algopy, cases):
+    UTPM = algopy.UTPM
+    terms, owners = [], []
+    tol = F(1, 2 ** 26)
+    for case in cases:
+        rep.count('op', 'pow:' + case['kind']); rep.count('D', case['D']); rep.count('P', case['P'])
+        rep.case(json.dumps(case, sort_keys=True), case['D'] >= 2, sample=None)
+        xd = dec(case['x'])
+        D, P = xd.shape[:2]
+        n = int(numpy.prod(xd.shape[2:], dtype=int))
+        key = 'impl:pow:' + case['kind']
+        try:
+            x = UTPM(xd.copy())
+            if case['kind'] == 'scalar_base':
+                r = dec(case['r']); z = r ** x
+            elif case['kind'] == 'poly_exponent':
+                yd = dec(case['y']); z = x ** UTPM(yd.copy())
+            else:
+                r = dec(case['r']); z = x ** r
+            zd = numpy.asarray(z.data)
+        except Exception as e:
+            rep.violation(key + ':' + type(e).__name__, 'power (%s) raises %s: %s' % (case['kind'], type(e).__name__, str(e)[:100]),
+                          dict(kind='exception', case=case, exc=repr(e)))
+            continue
+        if zd.shape != xd.shape:
+            rep.violation(key + ':shape', 'power (%s): result shape %s for operand shape %s' % (case['kind'], zd.shape, xd.shape),
+                          dict(kind='value', case=case, impl=enc(zd)))
+            continue
+        if case['kind'] in ('complex_exponent', 'np_exponent'):
+            res = pow_ode_residual(xd, zd, complex(r) if case['kind'] == 'complex_exponent' else float(r))
+            if not (res <= 1e-9):
+                rep.violation(key + ':' + type(r).__name__, 'x ** %r: result violates x z\' = r z x\' / z_0 = x_0**r (relative residual %.3g)' % (r, res),
+                              dict(kind='value', case=case, impl=enc(zd), residual=res,
+                                   python='x ** %r' % (r,)))
+                continue
+        if numpy.iscomplexobj(zd) or case['kind'] == 'complex_exponent':
+            continue
+        fx = xd.reshape((D, P, n)); fz = zd.reshape((D, P, n))
+        for p in range(P):
+            for e in range(n):
+                xs = [lib.frac(fx[d, p, e]) for d in range(D)]
+                zs = [lib.frac(fz[d, p, e]) for d in range(D)]
+                x0 = fx[0, p, e]
+                if case['kind'] == 'scalar_base':
+                    lr = float(numpy.log(r))
+                    model = '(expS (scaleS %s %s) %s)' % (qlit(lib.frac(lr)), qseq(xs), qlit(lib.frac(float(numpy.exp(lr * x0)))))
+                elif case['kind'] == 'poly_exponent':
+                    fy = yd.reshape((D, P, n))
+                    ys = [lib.frac(fy[d, p, e]) for d in range(D)]
+                    l0 = float(numpy.log(x0))
+                    model = '(expS (mulS (logS %s %s) %s) %s)' % (qseq(xs), qlit(lib.frac(l0)), qseq(ys), qlit(lib.frac(float(numpy.exp(l0 * fy[0, p, e])))))
+                else:
+                    rr = dec(case['r'])
+                    model = '(powS %s %s %s)' % (qseq(xs), qlit(lib.frac(float(rr))), qlit(lib.frac(float(x0) ** float(rr))))
+                terms.append('(Qc_allclose %s %s %s)' % (qlit(tol), model, qseq(zs)))
+                owners.append((case, p, e))
+    verdicts, logs = lib.eval_bool_cases(PID, IMPORTS, DEFS, terms, per_file=150, prefix='pow')
+    bad = 0
+    for (case, p, e), v, t in zip(owners, verdicts, terms):
+        if v is None:
+            bad += 1
+        elif not v:
+            rep.violation('impl:pow:' + case['kind'], 'power (%s): coefficients differ from the model (direction %d, element %d)' % (case['kind'], p, e),
+                          dict(kind='value', case=case, coq_term=t[:3000]))
+    if bad or logs:
+        rep.violation('corr:uneval:pow', 'correspondence corr.C02.pow could not be evaluated for %d series' % bad,
+                      dict(kind='correspondence', name='corr.C02.pow', log=logs[:3]), no_input=True)
+    rep.corr['pow_cases'] = len(cases)
+
+
 def main(tier, seed):
     algopy = lib.import_algopy()
     rep = Report(PID, tier, seed)
@@ -287,6 +394,7 @@ def main(tier, seed):
     n = 900 if tier == 'quick' else 12000
     cases = [gen_case(rng, tier) for _ in range(n)]
     judge(rep, algopy, cases)
+    judge_pow(rep, algopy, [gen_pow_case(rng, tier) for _ in range(120 if tier == 'quick' else 1500)])
     return rep.finish()
 
 
@@ -352,7 +460,9 @@ def replay(path):
     pl = json.load(open(path))
     algopy = lib.import_algopy()
     rep = Report(PID, 'quick', pl.get('seed', 0))
-    if 'case' in pl and 'op' in pl['case']:
+    if 'case' in pl and pl['case'].get('op') == 'pow':
+        judge_pow(rep, algopy, [pl['case']])
+    elif 'case' in pl and 'op' in pl['case']:
         judge(rep, algopy, [pl['case']])
     else:
         rep.theorems()
